@@ -1,6 +1,7 @@
 import SFV.Model.Sched
 import SFV.Model.HWProto
 import SFV.Lemmas.RefineStack
+import SFV.Lemmas.RefineSlots
 /-! Line protocol of the scheduler drivers (C10–C13): configuration lines, `try` / `notify` operations, state dump. -/
 namespace SFV.SchedProto
 open SFV SFV.HW SFV.HWProto SFV.Sched SFV.Gen.Sched SFV.Proto
@@ -12,6 +13,8 @@ structure DSt where
   st : St := {}
   refOk : Bool := true      -- `RefineStack.OkS` (cores and memory) held at every step so far: hypothesis of `sched_refines_ledger`
   raised : Bool := false    -- some step raised (then the run is outside that theorem)
+  slotOk : Bool := true     -- `RefineSlots.OkS` held at every step so far: hypothesis of `sched_refines_slots`
+  jobInfo : List (Nat × (Nat × List Nat)) := []   -- step and tag of every job seen (for `RefineSlots.Cfg`)
 
 def statusOfNat (n : Nat) : Option Status := Status.all.find? (fun s => s.toNat = n)
 
@@ -68,6 +71,14 @@ def hypOk (d : DSt) (op : Refine.SOp) : Bool :=
   decide (RefineStack.OkS Refine.coresComp (capOf d Refine.coresComp) d.st op) &&
   decide (RefineStack.OkS Refine.memoryComp (capOf d Refine.memoryComp) d.st op)
 
+/-- the static data `RefineSlots.Cfg` of the configured stacks and the jobs seen so far -/
+def slotCfg (d : DSt) : RefineSlots.Cfg :=
+  { depOf := fun name => (d.stacks.findSome? (fun (_, st) => st.findSome? (fun lvl => if lvl.name = name then some lvl.dep else none))).getD 0,
+    slots := fun name => (d.stacks.findSome? (fun (_, st) => st.findSome? (fun lvl =>
+        if lvl.name = name then some (lvl.slots.getD SFV.Gen.Sched.slotsDefault) else none))).getD 0,
+    stepOf := fun j => ((assocGet d.jobInfo j).map (·.1)).getD 0,
+    tagOf := fun j => ((assocGet d.jobInfo j).map (·.2)).getD [] }
+
 def availOf (d : DSt) (t : Nat) : Option (Nat × List Stack) := do
   let (wanted, ids) ← assocGet d.targets t
   let sts ← ids.mapM (assocGet d.stacks)
@@ -105,8 +116,10 @@ def step (d : DSt) : List String → DSt × String
                 let (s', o) := tryAllocate d.env d.st j stp tag hw t wanted avail
                 if op = "try" then
                   let isErr := match o with | .error _ => true | _ => false
-                  ({ d with st := s', refOk := d.refOk && hypOk d (.pass j stp tag hw t wanted avail),
-                            raised := d.raised || isErr }, outcomeStr o ++ " | " ++ dump s')
+                  let d1 := { d with jobInfo := assocSet d.jobInfo j (stp, tag) }
+                  ({ d1 with st := s', refOk := d.refOk && hypOk d (.pass j stp tag hw t wanted avail),
+                             slotOk := d.slotOk && decide (RefineSlots.OkS (slotCfg d1) d.st (.pass j stp tag hw t wanted avail)),
+                             raised := d.raised || isErr }, outcomeStr o ++ " | " ++ dump s')
                 else (d, outcomeStr o)
             | none => (d, "bad-op")
         | _, _, _, _, _ => (d, "bad-op")
@@ -119,9 +132,11 @@ def step (d : DSt) : List String → DSt × String
             | .done b => s!"done {b}"
             | .error e => "err " ++ serrStr e
           let isErr := match o with | .error _ => true | _ => false
-          ({ d with st := s', refOk := d.refOk && hypOk d (.notify j stt), raised := d.raised || isErr }, os ++ " | " ++ dump s')
+          ({ d with st := s', refOk := d.refOk && hypOk d (.notify j stt),
+                    slotOk := d.slotOk && decide (RefineSlots.OkS (slotCfg d) d.st (.notify j stt)),
+                    raised := d.raised || isErr }, os ++ " | " ++ dump s')
       | _, _ => (d, "bad-op")
-  | ["refhyp"] => (d, s!"{d.refOk} {d.raised}")
+  | ["refhyp"] => (d, s!"{d.refOk} {d.raised} {d.slotOk}")
   | ["dump"] => (d, dump d.st)
   | _ => (d, "bad-op")
 
